@@ -5,6 +5,7 @@ import (
 	"fmt"
 	"io"
 	"net"
+	"os"
 	"sort"
 	"sync"
 	"syscall"
@@ -184,6 +185,16 @@ func (s *Sim) Tape() *Tape    { return s.tape }
 func (s *Sim) Config() Config { return s.cfg }
 
 // Hash is the hash of the exact event log (kind, pipe, byte count per step).
+// traceOut, if VERIF_TRACE names a file, receives one line per performed
+// action (diagnosis of determinism divergences).
+var traceOut = func() *os.File {
+	if p := os.Getenv("VERIF_TRACE"); p != "" {
+		f, _ := os.OpenFile(p, os.O_CREATE|os.O_WRONLY|os.O_APPEND, 0644)
+		return f
+	}
+	return nil
+}()
+
 func (s *Sim) Hash() uint64 { return s.hash }
 
 // Shape is the hash of the interleaving shape (kind, pipe, length class).
@@ -714,6 +725,9 @@ func (s *Sim) perform(a action) {
 	}
 	s.hash = mix(s.hash, uint64(a.kind), uint64(p.ID), uint64(n))
 	s.shape = mix(s.shape, uint64(a.kind), uint64(p.ID), lenClass(n))
+	if traceOut != nil {
+		fmt.Fprintf(traceOut, "%d %c pipe=%d n=%d\n", s.Step, rune(a.kind), p.ID, n)
+	}
 	s.lastPipe = p.ID
 	s.Stats.Actions[a.kind]++
 }
